@@ -34,8 +34,8 @@ try:
         if got != fresh.encode('Tq', 200).hex():
             wrong += 1
             if wrong <= 3:
-                print('byte %d of ' + os.path.basename(db) + ' flipped: compile_files returned a Specification with encode(Tq, 200) = %s (uncached: %s)'
-                      % (pos, got, fresh.encode('Tq', 200).hex()))
+                print('byte %d of %s flipped: compile_files returned a Specification with encode(Tq, 200) = %s (uncached: %s)'
+                      % (pos, os.path.basename(db), got, fresh.encode('Tq', 200).hex()))
     print('%d of the flipped positions gave a wrong Specification without any error' % wrong)
     sys.exit(1 if wrong else 0)
 finally:
